@@ -469,8 +469,18 @@ def genJson (W : World) (cfg : Cfg) : List Entry → Except Err (List Str)
     | .error err => .error err
     | .ok i => (genJson W cfg es).map (i :: ·)
 
+/-- a `from __future__ import …` after another import: `compile` refuses the module -/
+def futureMisplaced : List Stmt → Bool
+  | [] => false
+  | s :: rest => (!isFuture s && rest.any isFuture) || futureMisplaced rest
+
 /-- `gen(...)` for `phase == 0` on an input file -/
 def gen (W : World) (cfg : Cfg) (input : InputFile) : Except Err Output := do
+  -- with both `--imports-from-file` and a non-empty `--prepend`, the prepend's import statements are compiled and
+  -- executed on their own (to resolve the file through them) before anything else happens
+  match cfg.fileImports, cfg.prepend with
+  | some _, some (stmts, _) => if futureMisplaced (stmts.filter isImport) then throw .syntaxError
+  | _, _ => pure ()
   let entries ← fileToInputMapping cfg.parse input
   if cfg.emit == .jsonSchema then
     let ids ← genJson W cfg entries
